@@ -255,6 +255,10 @@ func spellRef(fromURL, toURL string, toks []string, style int, varied bool) stri
 	if !varied {
 		style = 0
 	}
+	if fu.RawQuery != "" && same && noFragOnly && frag != "" {
+		// (schemas carry ids and the document's location a query: only the absolute spelling is unambiguous)
+		return toURL + frag
+	}
 	if fu.RawQuery != "" {
 		// The referring document's location carries a query.  RFC 3986 and the library (which lets a relative
 		// reference inherit the query of its base - pinned by the repository's normalizer tests) read a relative
